@@ -344,8 +344,14 @@ package kafka
 //@   requires 0 <= i && i < len(msgs)
 //@   option noframe
 //@   modifies nothing
+// a topic set on both the writer and the message is rejected whatever the two names are (C08: a call mixing writer-level and
+// message-level topics is rejected); exactly one of them set selects that one
 //@ func (*Writer).chooseTopic
 //@   ensures result1 == nil ==> len(result0) > 0
+//@   ensures len(w.Topic) > 0 && len(msg.Topic) > 0 ==> result1 != nil
+//@   ensures len(w.Topic) == 0 && len(msg.Topic) == 0 ==> result1 != nil
+//@   ensures result1 == nil && len(msg.Topic) > 0 ==> same(result0, msg.Topic)
+//@   ensures result1 == nil && len(msg.Topic) == 0 ==> same(result0, w.Topic)
 
 //@ iface Balancer.Balance
 //@   trusted a Balancer does not modify the message it is given (it receives it by value) nor the writer's state; which partition it returns is the subject of C13
@@ -519,6 +525,8 @@ package kafka
 //@   option noframe
 //@   modifies heap
 //@   callsite (*Conn).negotiateVersion requires $1 == saslHandshake && len($2) == 2 && $2[0] == v0 && $2[1] == v1
+// a handshake the broker answered with an error code (mechanism rejected) is a failed handshake: nothing may follow it
+//@   ensures result == nil ==> resp.ErrorCode == 0
 //@ func (*Conn).saslAuthenticate
 //@   option noframe
 //@   modifies heap
@@ -556,11 +564,18 @@ package kafka
 //@   ghostdef pc.$authok == (result == nil && sess.$accepted)
 //@   ensures result == nil ==> pc.$authok
 //@   loop 0 invariant completed ==> sess.$accepted
-//@ property C18 C06 C17
+//@ property C18 C06 C17 C07
 // The request loop of a Transport connection: the connection goes back to the idle pool only after an exchange that
 // completed (a response was read to its end; ErrNoRecord is such a completed exchange without records). After any other
 // failure - a response cut off, a timeout, a correlation mismatch - the loop ends and the deferred Close drops the
 // connection, so a later request can neither be written to it nor read what is left on it.
+// the deadline of a request covers the whole exchange, the write of the request included: a request still blocked in Write
+// when its caller has given up (and the Writer has retried elsewhere) must fail, not be delivered later
+//@ func (*conn).roundTrip
+//@   option noframe
+//@   option only callsite callsite-reach
+//@   modifies heap
+//@   callsite protocol.(*Conn).SetDeadline requires true
 //@ func (*conn).run
 //@   requires c.group.pool.sasl == nil || pc.$authok
 //@   option noframe
